@@ -853,8 +853,17 @@ type Café interface {
 	Servir(été string, größe int, _ Élan, _ []Élan) (résultat string, err error)
 	Ωmega(αlpha float64, id int) Élan
 }
+
+type Tagged interface {
+	Put(s struct {
+		F int "json:\\"naïve\\" x:\\"tab\\there\\""
+		G string `raw:"back\\\\slash"`
+	}) error
+	Local(f func() struct{ ключ int })
+}
 """
 flagsets("unicode", "adv/unicode", ["Café"], modes=("", "mocks"))
+flagsets("unicode-tag", "adv/unicode", ["Tagged"], modes=("", "mocks"))
 
 # D31: goimports, sibling files and a package name that cannot be guessed from the path
 FILES["adv/goimp/a.go"] = """package goimp
